@@ -1,5 +1,8 @@
 import Cdecao.Engine.Core
 import Cdecao.Engine.BabOpt
+import Cdecao.Proofs.NodeSpecAsm
+import Cdecao.Proofs.SpecExec
+import Cdecao.Props.C02
 /-! # C03 — verdict and score do not depend on thread count or thread interleaving -/
 namespace Props
 open Eng3
@@ -18,5 +21,27 @@ theorem C03 {root : ν} {top T₁ T₂ : Nat} {c₁ c₂ : Cfg ν σ} (h1 : 0 < 
 theorem C03_bounded_of_spec {S : Type} {score : S → Nat} {Sol : ν → S → Prop} {sem : σ → S} {μ : ν → Nat}
     (h : NodeSpec S score Sol sem μ) (root : ν) : Bounded root :=
   bounded_of_spec h root
+
+/-- **C03 for caobab**, class outside F1, WITH OR WITHOUT a room list and for every float
+    behaviour `R`: two finished runs of the parallel search on the same valid instance — any two
+    thread counts, any two schedules — agree on whether a solution is found and on its score. -/
+theorem C03_caobab (I : N2.Inst) (R : N2.RoomFns) (hv : N2.validb I = true) (hnf : N2.noFreeableb I = true)
+    (top T₁ T₂ : Nat) (h1 : 0 < T₁) (h2 : 0 < T₂) (htop : I.P * N2.G.W ≤ top) :
+    letI := N2.solverOf I R
+    ∀ c₁ c₂ : Cfg N2.Node (List (Option Nat)),
+      Reach N2.rootNode top T₁ c₁ → AllDone c₁ → Reach N2.rootNode top T₂ c₂ → AllDone c₂ →
+      (c₁.best = none ↔ c₂.best = none) ∧ (c₁.best ≠ none → c₁.bestScore = c₂.bestScore) := by
+  letI := N2.solverOf I R
+  intro c₁ c₂ hr1 hd1 hr2 hd2
+  obtain ⟨hI, hmm, _⟩ := N2.validb_sound I hv
+  have hb := N2.caobab_bounded I R hI hmm (noFreeableb_sound I hnf)
+  refine C03_engine h1 h2 hb ?_ hr1 hd1 hr2 hd2
+  -- every feasible node of the tree scores at most P · W
+  intro f sc hdf ⟨sol, hf⟩
+  have hok := N2.desc_ok2 I R f N2.rootNode hdf (N2.nodeOK2_root I)
+  have hrun := N2.res_feasible I R f sol sc hf
+  obtain ⟨a, _, _, hsc⟩ := N2.feas_in_sol I R f hI hmm hok sol sc hrun
+  rw [hsc]
+  exact Nat.le_trans (N2.scoreOf_le I a) htop
 
 end Props
